@@ -129,7 +129,7 @@ structure CoreSt where
   lostTimeout : List String := []    -- … whose ask was dropped by the placeholder timeout of a not yet running application (known class I7o)
   everBound : List String := []      -- keys the core announced as allocated or the RM reported as bound, at any time
   phGoneByRM : List String := []     -- real halves whose placeholder the RM released while the swap was in flight (known class C06 …+placeholder-released-by-rm)
-  swapRolledBack : List String := [] -- applications whose in-flight swap was rolled back by the removal of a node (known class C10 …+swap-rolled-back)
+  swapRolledBack : List String := [] -- applications whose in-flight swap was rolled back by the removal of a node (no longer a known class: repaired in 20ee082; kept as an observation)
 
 def firstSome (l : List (Unit → Option String)) : Option String := l.findSome? (fun f => f ())
 
@@ -175,6 +175,11 @@ def stepClauses (op : String) (_j : Json) (pre post : Core) (msgs : List Json) :
                      | some pn => pn.reservations.any (fun k => k != key && n.reservations.contains k)
                      | none => false) then some s!"C01.bind-node-reserved-for-other {key}@{node}{if isSwap then " (replacement)" else ""}"
             else if !(fitInStd (some n.available) (some i.res)) then some s!"C01.bind-does-not-fit {key}@{node} ask={showRes i.res} available={showRes n.available}"
+            -- … and the shim's predicate accepted this ask on this node in allocate mode during the cycle (the harness
+            -- records what its predicate plugin answered yes to)
+            else if (_j.getObjVal? "preds").toOption.isSome &&
+                    !(((jArr (fldD _j "preds" (.arr #[]))).toOption.getD #[]).toList.any (fun p => (jStr p).toOption.getD "" == key ++ "|" ++ node)) then
+              some s!"C01.bind-without-predicate {key}@{node}{if isSwap then " (replacement)" else ""}"
             else none),
     -- C01: available can only become (more) negative by an externally forced change: not by a scheduling cycle, a
     -- timer, a release or the confirmation of a placeholder swap
@@ -409,15 +414,11 @@ def coreStep (st : CoreSt) (j : Json) : Except String (CoreSt × String) := do
       -- (a completed application's id can be submitted again: the record of the old one is not the new application)
       if a.state != "Completed" || post.liveApps.any (fun l => l.id == a.id && l.state != "Completed") then none else
       (v2.asks.find? (fun k => k.2 == a.id && !v2.releasing.contains k.1)).map (fun k =>
-        if rolled.contains a.id then s!"C10.completing-with-pending-ask+swap-rolled-back-by-node-removal {a.id}"
-        else s!"C10.completed-with-outstanding-ask {a.id} {k.1}")))
+        s!"C10.completed-with-outstanding-ask {a.id} {k.1}")))
   let st' : CoreSt := { st' with lostInflight := lost, lostTimeout := lostT, swapRolledBack := rolled, phGoneByRM := phGone, everBound := everBound }
   let fails := fails.map (fun f =>
       if f.startsWith "C06.inflight-real-without-placeholder " && phGone.contains (keyOf f) then
         "C06.inflight-real-without-placeholder+placeholder-released-by-rm " ++ keyOf f else f)
-  let fails := fails.map (fun f =>
-      if f.startsWith "C10.completing-with-pending-ask " && rolled.contains (keyOf f) then
-        "C10.completing-with-pending-ask+swap-rolled-back-by-node-removal " ++ keyOf f else f)
   let fails := fails.map (fun f =>
       if (f.startsWith "C03.I7 allocation not listed by its application " || f.startsWith "C03.I7 allocation of unknown application ") && lost.contains (keyOf f) then "C03.I7r " ++ (f.drop 7).toString
       else if (f.startsWith "C03.I7 allocation not listed by its application " || f.startsWith "C03.I7 allocation of unknown application ") && lostT.contains (keyOf f) then "C03.I7o " ++ (f.drop 7).toString
